@@ -434,6 +434,11 @@ def equal_case(va, ua, vb, ub) -> Case:
             tags.append("equal:across-kinds")
             if r[1]:
                 viol = f"{va!r} {ua!r} and {vb!r} {ub!r} are of different kinds but compare equal"
+        elif (ka is None or kb is None) and ua.lower() != ub.lower():
+            # an unknown unit is only comparable with the identically named unit
+            tags.append("equal:unknown-unit")
+            if r[1]:
+                viol = f"{va!r} {ua!r} and {vb!r} {ub!r}: differently named units without a conversion compare equal"
         elif pa is not None and pb is not None:
             A, B = Fraction(va) * pa[1], Fraction(vb) * pb[1]
             rel = abs(A - B) / max(abs(A), abs(B)) if (A or B) else Fraction(0)
@@ -502,6 +507,16 @@ def gen_equal(rng: random.Random, n: int) -> List[Tuple[Any, Any, Any, Any]]:
         out.append((v, "tea  spoon", w, "tsp"))
         out.append((v, "Kg", w, "kg"))
         out.append((v, "pint\u017f", w, "pints"))
+    # zero-valued quantities (every number type) against incompatible and unknown units, both directions
+    mass, vol = by_kind["mass"], by_kind["volume"]
+    for z in (0, 0.0, Fraction(0)):
+        for other in (1, 2.5, Fraction(3, 4), 0):
+            for ua, ub in ((rng.choice(mass), rng.choice(vol)), (rng.choice(vol), rng.choice(mass)),
+                           (rng.choice(mass), "clove"), ("sack", rng.choice(vol)),
+                           ("spam", "eggs"), ("spam", rng.choice(mass)), (rng.choice(vol), "handful"),
+                           ("tea  spoon", "tsp"), ("Spam", "SPAM"), ("spam", None), (None, "g")):
+                out.append((z, ua, other, ub))
+                out.append((other, ub, z, ua))
     out.append((10 ** 400, "g", 10 ** 397, "kg"))
     out.append((1, "g", 0, "kg"))
     out.append((0, "g", 0, "lb"))
